@@ -89,7 +89,7 @@ Proof.
   assert (E1 : (c * TWO32 + Z.of_nat i) mod TWO32 = Z.of_nat i) by (rewrite Z.add_comm, Z_mod_plus_full; apply Z.mod_small; lia).
   assert (E2 : (c * TWO32 + Z.of_nat i) / TWO32 = c) by (rewrite Z.add_comm, Z.div_add by lia; rewrite Z.div_small by lia; lia).
   rewrite E1, E2, Nat2Z.id.
-  destruct (_ =? 0); [auto|]. destruct (nth_error (timers st) i) as [t|] eqn:N; [|auto].
+  destruct (_ =? 0); [auto|]. destruct (c =? 0); [auto|]. destruct (nth_error (timers st) i) as [t|] eqn:N; [|auto].
   destruct (H t eq_refl) as [X|X].
   - apply Z.eqb_neq in X. rewrite X. auto.
   - destruct (t_check t =? c); [|auto]. rewrite X. auto.
